@@ -695,6 +695,15 @@ func verifScribble(v reflect.Value, seen map[uintptr]bool, depth int) {
 		for _, k := range v.MapKeys() {
 			v.SetMapIndex(k, reflect.Value{})
 		}
+		// ... and a new entry is inserted (an empty shared map is shared as well)
+		nk := reflect.New(v.Type().Key()).Elem()
+		for try := 0; try < 4; try++ {
+			verifScribble(nk, map[uintptr]bool{}, depth+1)
+			if !v.MapIndex(nk).IsValid() {
+				v.SetMapIndex(nk, reflect.Zero(v.Type().Elem()))
+				break
+			}
+		}
 	case reflect.Bool:
 		if v.CanSet() {
 			v.SetBool(!v.Bool())
